@@ -290,4 +290,286 @@ theorem C14_macro_not_register_rejected (args : List (String × Val)) (nm r : St
   · exact ⟨"not-a-register", by simp [ExpandMacros.substVal, hl, hfit, hna, bind, Except.bind, pure, Except.pure]⟩
   · exact ⟨"type-check", by simp [ExpandMacros.substVal, hl, hfit, bind, Except.bind]⟩
 
+/-! ### 3. Both orders -/
+
+/-- **C14, both orders of the two passes** on a parsed circuit: `fill_in_let` then `expand_macros`, or `expand_macros` then
+`fill_in_let` — either way the result is `KnownRefsOK`; after `… ; expand_macros` no macro call is left, after `… ; fill_in_let` no
+let-constant is left.  (`C14_stage_order_full` below: both at once in both orders.) -/
+theorem C14_stage_order (cfg : Config) (txt : String) (ov : List (String × Num)) (p : Bool) (c : Circuit)
+    (hp : Pipeline.parseProgram cfg txt = .ok c) :
+    (∀ c1 c2, fillInLet ov c = .ok c1 → ExpandMacros.expandMacros p c1 = .ok c2 →
+      KnownRefsOK c1 ∧ NoConstRefs c1 ∧ KnownRefsOK c2 ∧ ExpandMacros.noCalls c1.macros c2.body = true) ∧
+    (∀ c1 c2, ExpandMacros.expandMacros p c = .ok c1 → fillInLet ov c1 = .ok c2 →
+      KnownRefsOK c1 ∧ ExpandMacros.noCalls c.macros c1.body = true ∧ KnownRefsOK c2 ∧ NoConstRefs c2) := by
+  have hL := Passes.parsed_legal cfg txt c hp
+  have hk := parsed_knownRefs hp
+  refine ⟨fun c1 c2 h1 h2 => ?_, fun c1 c2 h1 h2 => ?_⟩
+  · have hL1 : Passes.Legal c1 := Passes.C10_legal_seq_parsed cfg txt [.let_ ov] c c1 hp (by simp [Passes.applySeq, Passes.apply, h1, Except.bind, pure, Except.pure])
+    obtain ⟨k1, n1⟩ := let_knownRefs hL hk h1
+    obtain ⟨k2, nc⟩ := C14_stage_macros_legal hL1 k1 h2
+    exact ⟨k1, n1, k2, nc⟩
+  · have hL1 : Passes.Legal c1 := Passes.C10_legal_seq_parsed cfg txt [.macros p] c c1 hp (by simp [Passes.applySeq, Passes.apply, h1, Except.bind, pure, Except.pure])
+    obtain ⟨k1, nc⟩ := C14_stage_macros_legal hL hk h1
+    obtain ⟨k2, n2⟩ := let_knownRefs hL1 k1 h2
+    exact ⟨k1, nc, k2, n2⟩
+
+/-- NOT proved: both facts at once in both orders — after `fill_in_let ; expand_macros` also no let-constant is left (the
+substitution of constant-free arguments into constant-free bodies makes no constant: the induction of
+`Lemmas/RefsStages.lean: replStmt_valOK` once more, for `FillIn.noConst`), and after `expand_macros ; fill_in_let` also no macro call
+is left (`C05_frame`: the rebuild keeps the gate names, `noCalls` reads nothing else).  In `run_jaqal_circuit`'s own order the
+stronger `C14_refs_after_passes` holds (`FlatT`: no constant, no parameter, no call). -/
+def C14_stage_order_full : Prop :=
+  ∀ (cfg : Config) (txt : String) (ov : List (String × Num)) (p : Bool) (c : Circuit),
+    Pipeline.parseProgram cfg txt = .ok c →
+    (∀ c1 c2, fillInLet ov c = .ok c1 → ExpandMacros.expandMacros p c1 = .ok c2 →
+      KnownRefsOK c2 ∧ NoConstRefs c2 ∧ ExpandMacros.noCalls c1.macros c2.body = true) ∧
+    (∀ c1 c2, ExpandMacros.expandMacros p c = .ok c1 → fillInLet ov c1 = .ok c2 →
+      KnownRefsOK c2 ∧ NoConstRefs c2 ∧ ExpandMacros.noCalls c.macros c2.body = true)
+
+/-! ### 4. The capstone: nothing with a determined bad reference reaches the emulator -/
+
+mutual
+  theorem os_gates : ∀ (s : Stmt), OS s → ∀ g ∈ gatesOf s, ∀ a ∈ g.2.2, VOK a.2
+    | .gate n gd args, h, g, hg, a, ha => by
+      simp only [gatesOf, List.mem_singleton] at hg
+      subst hg
+      exact h a ha
+    | .block _ _ _ body, h, g, hg, a, ha => by
+      simp only [gatesOf] at hg
+      exact osl_gates body h.2.2 g hg a ha
+    | .loop _ b, h, g, hg, a, ha => by
+      simp only [gatesOf] at hg
+      exact os_gates b h g hg a ha
+  theorem osl_gates : ∀ (l : List Stmt), OSL l → ∀ g ∈ gatesOfList l, ∀ a ∈ g.2.2, VOK a.2
+    | [], _, g, hg, _, _ => by simp [gatesOfList] at hg
+    | s :: r, h, g, hg, a, ha => by
+      simp only [gatesOfList, List.mem_append] at hg
+      rcases hg with hg | hg
+      · exact os_gates s h.1 g hg a ha
+      · exact osl_gates r h.2 g hg a ha
+end
+
+/-- a closed typed argument with a value in the specification is honoured by the library's resolution, inside every level -/
+theorem honoured_of_eval {v : Val} {sa : SArg} (ht : argT v = true) (h : evalArg [] [] v = .ok sa)
+    (hq : isQuantum v = true) : ArgHonoured Within v := by
+  have hag := argAgree_spec ht h
+  apply ArgHonoured.within ht
+  cases v with
+  | qubit n s i =>
+    simp only [evalArg] at h
+    obtain ⟨q, _, h⟩ := bind_ok h
+    simp only [pure, Except.pure, Except.ok.injEq] at h
+    subst h
+    exact Or.inl ⟨q.1, q.2, qubitHonoured_of_resolve hag⟩
+  | regF n sz =>
+    simp only [evalArg] at h
+    obtain ⟨qs, _, h⟩ := bind_ok h
+    simp only [pure, Except.pure, Except.ok.injEq] at h
+    subst h
+    exact Or.inr (regIndices_ok rfl hag.1)
+  | regA n src =>
+    simp only [evalArg] at h
+    obtain ⟨qs, _, h⟩ := bind_ok h
+    simp only [pure, Except.pure, Except.ok.injEq] at h
+    subst h
+    exact Or.inr (regIndices_ok rfl hag.1)
+  | regS n src a b c =>
+    simp only [evalArg] at h
+    obtain ⟨qs, _, h⟩ := bind_ok h
+    simp only [pure, Except.pure, Except.ok.injEq] at h
+    subst h
+    exact Or.inr (regIndices_ok rfl hag.1)
+  | int _ => simp [isQuantum, Resolve.isRegister] at hq
+  | flt _ => simp [isQuantum, Resolve.isRegister] at hq
+  | const _ _ => simp [isQuantum, Resolve.isRegister] at hq
+  | param _ _ => simp [isQuantum, Resolve.isRegister] at hq
+  | none => simp [isQuantum, Resolve.isRegister] at hq
+  | str _ => simp [isQuantum, Resolve.isRegister] at hq
+
+/-- every reference of the circuit handed to the emulator is DETERMINED (`argT`: a number, a register sized and sliced by
+integers, or a qubit of such a register with an integer index — no macro parameter, no macro call: `FlatT`) and HONOURED: it has a
+value in the specification, the library's resolution computes that value (`ArgAgree`), and the index lies inside the size of
+every level of its alias chain (`ArgHonoured Within`) -/
+def AllRefsHonoured (x : Circuit) : Prop :=
+  ∀ g ∈ gatesOf x.body, ∀ a ∈ g.2.2, argT a.2 = true ∧ (∃ sa, evalArg [] [] a.2 = .ok sa ∧ ArgAgree a.2 sa) ∧
+    (isQuantum a.2 = true → ArgHonoured Within a.2)
+
+/-- **What reaches the emulator.** For a parsed program and any override list: if the three passes succeed, the circuit they
+produce is flat and typed, `KnownRefsOK`, and ALL its references are determined and honoured. -/
+theorem C14_refs_after_passes (cfg : Config) (txt : String) (ov : List (String × Num)) (c x : Circuit)
+    (hp : Pipeline.parseProgram cfg txt = .ok c) (hx : expandAll ov c = .ok x) :
+    FlatT x = true ∧ KnownRefsOK x ∧ AllRefsHonoured x := by
+  have hf := flatOf_all cfg ov txt c x hp hx
+  unfold expandAll at hx
+  obtain ⟨c1, h1, hx⟩ := bind_ok hx
+  obtain ⟨c2, h2, hx⟩ := bind_ok hx
+  have hff := parsed_filled hp h1 h2
+  have hos := expand_vok hff.pre hff.vsBody hff.vsMacros hx
+  refine ⟨hf, (C14_stage_macros_filled cfg txt ov false c c1 c2 x hp h1 h2 hx).1, ?_⟩
+  intro g hg a ha
+  have ht := FlatT_args hf g hg a ha
+  obtain ⟨sa, hsa⟩ := evOK_of_vok ht (os_gates x.body hos g hg a ha)
+  exact ⟨ht, ⟨sa, hsa, argAgree_spec ht hsa⟩, honoured_of_eval ht hsa⟩
+
+/-- **C14, capstone: refused at the latest when the value becomes known.**  `run_jaqal_circuit` applies `expand_subcircuits`,
+`fill_in_let ov`, `expand_macros` and then executes.  If the run of a parsed program is refused, then
+
+* a pass refused it — `fill_in_let` (class `Good`: `JaqalError`, see the header) or `expand_macros` (`JaqalError`), or
+  `expand_subcircuits` (which reads no reference) —, or
+* the three passes succeeded, and then EVERY reference of the circuit handed to the emulator is determined and honoured
+  (`AllRefsHonoured`): the refusal (a `JaqalError`) is not about a reference — nothing with a bad reference reaches the emulator.
+
+"Determined": a reference is determined at `fill_in_let` when it is `closedRef` (no macro parameter as its source or index; its
+value is `Sem.evalArg (normOv ov) []` of it) — a bad one is refused THERE (`C14_stage_let_rejects`, `…_register`); every other
+reference (through a macro parameter) is determined when the call is expanded — a bad one is refused by `expand_macros`
+(`C14_stage_macros_rejects`, `C14_macro_index_rejected`, `C14_macro_kind_rejected`); after the three passes nothing is left
+undetermined (`argT`).  Literal references were checked when the circuit was built (`C14_sound`). -/
+theorem C14_latest_when_known (cfg : Config) (txt : String) (ov : List (String × Num)) (c : Circuit) (e : Err)
+    (hp : Pipeline.parseProgram cfg txt = .ok c) (hrun : runCircuit ov c = .error e) :
+    ExpandSubcircuits.expandSubcircuits none none c = .error e ∨
+    (∃ c1, ExpandSubcircuits.expandSubcircuits none none c = .ok c1 ∧ fillInLet ov c1 = .error e ∧ Good e) ∨
+    (∃ c1 c2 r, ExpandSubcircuits.expandSubcircuits none none c = .ok c1 ∧ fillInLet ov c1 = .ok c2 ∧
+      ExpandMacros.expandMacros false c2 = .error e ∧ e = .jaqal r) ∨
+    (∃ x r, expandAll ov c = .ok x ∧ execute x = .error e ∧ e = .jaqal r ∧ FlatT x = true ∧ KnownRefsOK x ∧
+      AllRefsHonoured x) := by
+  cases h1 : ExpandSubcircuits.expandSubcircuits none none c with
+  | error e1 =>
+    left
+    simp only [runCircuit, expandAll, h1, bind, Except.bind] at hrun
+    cases hrun; rfl
+  | ok c1 =>
+    right
+    cases h2 : fillInLet ov c1 with
+    | error e2 =>
+      left
+      simp only [runCircuit, expandAll, h1, h2, bind, Except.bind] at hrun
+      cases hrun
+      exact ⟨c1, rfl, h2, fillInClass_all cfg ov txt c c1 hp h1 e h2⟩
+    | ok c2 =>
+      right
+      cases h3 : ExpandMacros.expandMacros false c2 with
+      | error e3 =>
+        left
+        simp only [runCircuit, expandAll, h1, h2, h3, bind, Except.bind] at hrun
+        cases hrun
+        obtain ⟨r, hr⟩ := ExpandMacros.C04_total_class false c2 (parsed_filled hp h1 h2).wf e h3
+        exact ⟨c1, c2, r, rfl, h2, h3, hr⟩
+      | ok x =>
+        right
+        have hx : expandAll ov c = .ok x := by simp only [expandAll, h1, h2, h3, bind, Except.bind]
+        have hex : execute x = .error e := by
+          simpa only [runCircuit, hx, bind, Except.bind] using hrun
+        obtain ⟨hf, hk, hh⟩ := C14_refs_after_passes cfg txt ov c x hp hx
+        obtain ⟨r, hr⟩ := execute_jaqal hf hex
+        exact ⟨x, r, hx, hex, hr, hf, hk, hh⟩
+
+/-- … in particular the premise of `C14_bad_qubit_not_honoured` / `C14_run_bad_ref_rejected` (a qubit argument whose chain is not
+allowed at some level) is never met by a circuit the passes produced: the emulator is never the first to see a bad reference -/
+theorem C14_emulator_never_first (cfg : Config) (txt : String) (ov : List (String × Num)) (c x : Circuit)
+    (hp : Pipeline.parseProgram cfg txt = .ok c) (hx : expandAll ov c = .ok x) :
+    ∀ g ∈ gatesOf x.body, ∀ a ∈ g.2.2, ∀ n s i, a.2 = .qubit n s i → QubitChain Within a.2 := by
+  intro g hg a ha n s i hq
+  obtain ⟨_, _, hh⟩ := (C14_refs_after_passes cfg txt ov c x hp hx).2.2 g hg a ha
+  rcases hh (by rw [hq]; simp [isQuantum]) with ⟨r, k, h⟩ | h
+  · exact h.chain
+  · have := h.1
+    rw [hq] at this
+    simp [Resolve.isRegister] at this
+
+/-! ### Non-vacuity (evaluated) -/
+section Examples
+
+/-- the stage of `run_jaqal_circuit` at which a text (gate set `exCfg`: `X`, `prepare_all`, `measure_all`) is refused -/
+def stageOf (ov : List (String × Num)) (txt : String) : String :=
+  match Pipeline.parseProgram exCfg txt with
+  | .error _ => "parse"
+  | .ok c =>
+    match ExpandSubcircuits.expandSubcircuits none none c with
+    | .error _ => "expand_subcircuits"
+    | .ok c1 =>
+      match fillInLet ov c1 with
+      | .error (.jaqal _) => "fill_in_let: JaqalError"
+      | .error _ => "fill_in_let: other"
+      | .ok c2 =>
+        match ExpandMacros.expandMacros false c2 with
+        | .error (.jaqal _) => "expand_macros: JaqalError"
+        | .error _ => "expand_macros: other"
+        | .ok x => match execute x with | .ok _ => "ran" | .error _ => "execute"
+
+/-- `let k 0; register q[2]; prepare_all; X q[k]; measure_all` -/
+def exLet : String := "let k 0\nregister q[2]\nprepare_all\nX q[k]\nmeasure_all\n"
+-- an index by a let: accepted as written and with the override `k = 1`; overridden out of range it is refused by `fill_in_let`
+example : stageOf [] exLet = "ran" := by decide +kernel
+example : stageOf [("k", .int 2)] exLet = "fill_in_let: JaqalError" := by decide +kernel
+
+/-- `register q[2]; macro m i { X q[i] }; prepare_all; m <arg>; measure_all` -/
+def exMac (arg : String) : String := "register q[2]\nmacro m i { X q[i] }\nprepare_all\nm " ++ arg ++ "\nmeasure_all\n"
+-- an index by a macro argument: `m 2` is accepted by the parser and by `fill_in_let`, refused by `expand_macros`; `m 1` runs
+example : stageOf [] (exMac "1") = "ran" := by decide +kernel
+example : stageOf [] (exMac "2") = "expand_macros: JaqalError" := by decide +kernel
+
+-- a strided alias of a strided alias (`Props/C14Run.lean: exAlias`: `a = q[1:6:2]`, `b = a[0:3:2]`, `X b[k]`): `b` has 2 elements
+example : stageOf [("k", .int 1)] exAlias = "ran" := by decide +kernel
+example : stageOf [("k", .int 2)] exAlias = "fill_in_let: JaqalError" := by decide +kernel
+-- … indexed through a macro argument
+example : stageOf [] "register q[6]\nmap a q[1:6:2]\nmap b a[0:3:2]\nmacro m i { X b[i] }\nprepare_all\nm 2\nmeasure_all\n" =
+    "expand_macros: JaqalError" := by decide +kernel
+-- … and a slice bound that is a let, overridden so that the alias of the alias leaves its source: a DECLARATION refused by
+-- `fill_in_let` although no gate uses it
+example : stageOf [("n", .int 5)] "let n 2\nregister q[6]\nmap a q[1:6:2]\nmap b a[0:n:2]\nprepare_all\nX q[0]\nmeasure_all\n" =
+    "fill_in_let: JaqalError" := by decide +kernel
+
+/-- the hypotheses of `C14_stage_let_rejects`, evaluated on `exLet` under `k = 2`: some gate argument of the spelled-out circuit is
+determined by literals and lets and has no value in the specification -/
+def exBadArgs (ov : List (String × Num)) (txt : String) : Option (List (Bool × Bool)) :=
+  match Pipeline.parseProgram exCfg txt with
+  | .ok c =>
+    match ExpandSubcircuits.expandSubcircuits none none c with
+    | .ok c1 => some (((gatesOf c1.body).flatMap (·.2.2)).map (fun a =>
+        (closedRef a.2, match evalArg (normOv ov) [] a.2 with | .error _ => true | .ok _ => false)))
+    | .error _ => none
+  | .error _ => none
+example : exBadArgs [("k", .int 2)] exLet = some [(true, true)] := by decide +kernel
+
+/-- the hypothesis of `C14_stage_macros_rejects`, evaluated on `exMac "2"`: the filled circuit has no meaning -/
+def exNoMeaning (ov : List (String × Num)) (txt : String) : Option Bool :=
+  match Pipeline.parseProgram exCfg txt with
+  | .ok c =>
+    match ExpandSubcircuits.expandSubcircuits none none c with
+    | .ok c1 => match fillInLet ov c1 with
+      | .ok c2 => some (match meaning [] c2 with | .error _ => true | .ok _ => false)
+      | .error _ => none
+    | .error _ => none
+  | .error _ => none
+example : exNoMeaning [] (exMac "2") = some true := by decide +kernel
+
+-- the value-level rejections
+example : ∃ r, ExpandMacros.substVal [("i", .int 2)] (.qubit "q[i]" (.regF "q" (.int 2)) (.param "i" .none)) = .error (.jaqal r) :=
+  C14_macro_index_rejected _ _ _ _ _ 2 2 rfl rfl (Or.inr (by omega))
+example : ExpandMacros.substVal [("i", .int 1)] (.qubit "q[i]" (.regF "q" (.int 2)) (.param "i" .none)) =
+    .ok (.qubit "q[1]" (.regF "q" (.int 2)) (.int 1)) := by decide +kernel
+
+-- `KnownRefsOK` is decidable (`knownRefsB_iff`): the conclusion of `C14_stage_let`, evaluated on `exLet` under `k = 1`
+example : (match Pipeline.parseProgram exCfg exLet with
+    | .ok c => (match fillInLet [("k", .int 1)] c with | .ok c' => decide (KnownRefsOK c') | .error _ => false)
+    | .error _ => false) = true := by decide +kernel
+
+end Examples
+
 end Jaqal.Stages
+
+#print axioms Jaqal.Stages.C14_stage_let
+#print axioms Jaqal.Stages.C14_stage_let_rejects
+#print axioms Jaqal.Stages.C14_stage_let_rejects_register
+#print axioms Jaqal.Stages.C14_stage_macros
+#print axioms Jaqal.Stages.C14_stage_macros_legal
+#print axioms Jaqal.Stages.C14_stage_macros_filled
+#print axioms Jaqal.Stages.C14_stage_macros_rejects
+#print axioms Jaqal.Stages.C14_stage_source_rejects
+#print axioms Jaqal.Stages.C14_macro_index_rejected
+#print axioms Jaqal.Stages.C14_macro_kind_rejected
+#print axioms Jaqal.Stages.C14_macro_not_register_rejected
+#print axioms Jaqal.Stages.C14_stage_order
+#print axioms Jaqal.Stages.C14_refs_after_passes
+#print axioms Jaqal.Stages.C14_latest_when_known
+#print axioms Jaqal.Stages.C14_emulator_never_first
